@@ -174,6 +174,111 @@ def open_tuple_probe(res):
                                      "input": {"open_tuple": [ann, src]}})
 
 
+# ---- structured classes with PRIVATE (underscore) members: outside the round-trip universe (a private field is never on the
+# wire), but unmarshal from a mapping or a text that carries the key is an ordinary call, and the result conforms member by member
+PRIV_SRC = r"""
+import dataclasses, decimal, uuid, datetime, typing, enum
+class Doc(typing.TypedDict):
+    _id: uuid.UUID
+    title: str
+class DocPart(typing.TypedDict, total=False):
+    _rev: int
+    _tags: typing.List[int]
+@dataclasses.dataclass
+class Account:
+    owner: str
+    _balance: decimal.Decimal = decimal.Decimal(0)
+@dataclasses.dataclass
+class Ledger:
+    accounts: typing.List[Account]
+    _opened: datetime.date = datetime.date(2020, 1, 1)
+@dataclasses.dataclass
+class Wrapped:
+    _inner: typing.Optional[Account] = None
+    _pairs: typing.Dict[str, int] = dataclasses.field(default_factory=dict)
+    _pt: typing.Tuple[int, str] = (0, '')
+class Plain:
+    _n: int
+    label: str
+    def __init__(self, _n: int = 0, label: str = ''):
+        self._n, self.label = _n, label
+"""
+PRIV_TARGETS = ["Doc", "DocPart", "Account", "Ledger", "Wrapped", "Plain", "typing.List[Doc]", "typing.Dict[str, Account]",
+                "typing.Optional[Wrapped]", "typing.Tuple[Account, Doc]"]
+PRIV_INPUTS = ["{'_id': '7c5b9e1e-3f65-4b0a-9a57-0f6c0b1d2a11', 'title': 'a'}", "{'_id': ['not', 'a'], 'title': 'a'}",
+               "'{\"_id\": \"7c5b9e1e-3f65-4b0a-9a57-0f6c0b1d2a11\", \"title\": \"a\"}'", "{'_rev': '3', '_tags': ['1', '2']}", "{'_rev': None}",
+               "{'owner': 'ann', '_balance': '12.50'}", "{'owner': 'ann', '_balance': {'oops': None}}", "{'owner': 'ann'}",
+               "b'{\"owner\": \"ann\", \"_balance\": \"1.5\"}'",
+               "{'accounts': [{'owner': 'a', '_balance': '1.5'}, {'owner': 'b'}], '_opened': '2021-02-03'}",
+               "{'accounts': [], '_opened': 'junk'}", "{'_inner': {'owner': 'x', '_balance': '2'}, '_pairs': {'a': '1'}, '_pt': ['1', 2]}",
+               "{'_pt': ['1', 2, 3]}", "{'_pairs': [1, 2]}", "{'_n': '5', 'label': 7}", "{'_n': 'x'}",
+               "[{'_id': '7c5b9e1e-3f65-4b0a-9a57-0f6c0b1d2a11', 'title': 't'}]", "{'k': {'owner': 'o', '_balance': '0.1'}}", "None",
+               "[{'owner': 'o', '_balance': '3'}, {'_id': '7c5b9e1e-3f65-4b0a-9a57-0f6c0b1d2a11', 'title': 1}]"]
+
+
+def _priv_child(ann):
+    import warnings
+    warnings.simplefilter("ignore")
+    import sys
+    import types
+    import typing
+    import dataclasses
+    import typelib
+    mod = types.ModuleType("vm_c03_priv")
+    sys.modules["vm_c03_priv"] = mod
+    exec(PRIV_SRC, mod.__dict__)
+    ns = dict(vars(mod))
+    t = eval(ann, ns)
+
+    def conf(a, x):
+        og, ar = typing.get_origin(a), typing.get_args(a)
+        if og is typing.Union:
+            return any(conf(m, x) for m in ar)
+        if a is type(None):
+            return x is None
+        if og is tuple:
+            return type(x) is tuple and len(x) == len(ar) and all(conf(m, e) for m, e in zip(ar, x))
+        if og is list:
+            return type(x) is list and all(conf(ar[0], e) for e in x)
+        if og is dict:
+            return type(x) is dict and all(conf(ar[0], k) and conf(ar[1], v) for k, v in x.items())
+        if typing.is_typeddict(a):
+            hints = typing.get_type_hints(a)
+            return (type(x) is dict and set(x) <= set(hints) and a.__required_keys__ <= set(x)
+                    and all(conf(hints[k], v) for k, v in x.items()))
+        if dataclasses.is_dataclass(a):
+            hints = typing.get_type_hints(a)
+            return type(x) is a and all(conf(h, getattr(x, n)) for n, h in hints.items())
+        if a is mod.Plain:
+            return type(x) is a and type(x._n) is int and type(x.label) is str
+        return type(x) is a
+    out = []
+    for src in PRIV_INPUTS:
+        x = eval(src)
+        try:
+            r = typelib.unmarshal(t, x)
+        except Exception:  # noqa: BLE001
+            out.append([src, "raised", True])
+            continue
+        out.append([src, repr(r)[:160], bool(conf(t, r))])
+    return out
+
+
+def private_member_probe(res):
+    from .. import iso
+    outs = iso.map_isolated(_priv_child, PRIV_TARGETS, timeout=60.0)
+    for ann, o in zip(PRIV_TARGETS, outs):
+        if not isinstance(o, list):
+            raise RuntimeError(f"harness: private-member probe failed: {ann}: {o}")
+        for src, got, ok in o:
+            res.case({"ann": ann, "val": src, "family": "private-member"}, True)
+            if ok:
+                res.count("oracle:private-member:" + ("rejected" if got == "raised" else "conforms"))
+            else:
+                res.failures.append({"what": f"unmarshal({ann}, {src}) returned {got}: a private member is not a value of its annotated type",
+                                     "input": {"private_member": [ann, src]}})
+
+
 def explore(ctx):
     res = Result()
     res.rule = RULE
@@ -233,6 +338,7 @@ def explore(ctx):
                 res.count("oracle:raised:" + r_["err"])
     text_descent_probe(res)
     open_tuple_probe(res)
+    private_member_probe(res)
     return res
 
 
@@ -256,6 +362,12 @@ def replay(failure):
         o = iso.map_isolated(_open_child, [inp["open_tuple"][0]], timeout=60.0)[0]
         bad = [x for x in o if not x[2]] if isinstance(o, list) else o
         print(json.dumps({"annotation": inp["open_tuple"][0], "non-conforming results": bad}, indent=1))
+        return bool(bad)
+    if "private_member" in inp:
+        from .. import iso
+        o = iso.map_isolated(_priv_child, [inp["private_member"][0]], timeout=60.0)[0]
+        bad = [x for x in o if not x[2]] if isinstance(o, list) else o
+        print(json.dumps({"annotation": inp["private_member"][0], "non-conforming results": bad}, indent=1))
         return bool(bad)
     job = {"prog": inp["prog"], "ops": [{"op": "um", "ty": inp["ty"], "val": inp["val"], "obs": ["conforms"]}]}
     real, model = core.run_jobs([job])
